@@ -505,7 +505,7 @@ func acctScenarios(prop, tier string) []acctScenario {
 	// two sessions of one subscriber that both hold a grant on the same rating group (starts where the shorter scenario's depth ends)
 	scs = append(scs, acctScenario{name: "2sess-b300-u2-both-granted", accounts: []Account{{supiA, 1, "300", "2"}}, depth: 2,
 		prefix: []Op{mkCreate(0, "smf1"), mkCreate(0, "smf2"), usageOp("update", 0, 1, 100, 0, 301), usageOp("update", 1, 1, 100, 0, 401)},
-		rgs: one, usedSyms: []string{"zero", "all"}, reqs: []int32{100}, twoSess: true})
+		rgs:    one, usedSyms: []string{"zero", "all"}, reqs: []int32{100}, twoSess: true})
 	scs = append(scs, acctScenario{name: "2rg-b250", accounts: []Account{{supiA, 1, "250", "2"}, {supiA, 2, "120", "1"}}, prefix: []Op{mkCreate(0, "smf1")}, depth: 3,
 		rgs: [][]int32{{1}, {2}, {1, 2}}, usedSyms: []string{"zero", "all"}, reqs: []int32{100}, extras: true})
 	if tier == "thorough" {
